@@ -648,6 +648,11 @@ def run_layer(run, rng, tier, model, asn1c, skel, scratch_dir, ncpu, run_lines):
         run.count("kind:" + ":".join(lab.split(":")[:2]) + (":legal" if lab.endswith(":legal") else (":nokw" if lab.endswith(":nokw") else "")))
         run.count("tm:tagging:" + m[0])
         run.count("tm:asn1c:" + r["verdict"])
+        if (r["idents"] or any(x.startswith("FATAL:") for x in r["other"])) and (r["rc"] == 0 or r["nfiles"] > 0):    # general clause (wave 5)
+            run.count("oracle_deviation")
+            run.violation("oracle:fatal-diagnostic-implies-failure", {"label": lab, "module_asn1": text, "input": text,
+                                                                      "what": "FATAL line(s) printed, exit %d, %d files" % (r["rc"], r["nfiles"]),
+                                                                      "asn1c": {k: r[k] for k in ("rc", "verdict", "idents", "other", "nfiles")}})
         f = dict(kv.split("=", 1) for kv in o.split())
         orc = Oracle(m)
         errors, xdefs, xsites = orc.expect(m)
